@@ -58,12 +58,15 @@ package tree
 //@ pred lessSWO(less) = (forall a K {less(a, a)} :: !less(a, a))
 //@   && (forall a K, b K, c K {less(a, b), less(b, c)} :: less(a, b) && less(b, c) ==> less(a, c))
 //@   && (forall a K, b K, c K {less(a, b), less(b, c)} {less(b, a), less(c, b)} :: !less(a, b) && !less(b, a) && !less(b, c) && !less(c, b) ==> !less(a, c) && !less(c, a))
-//@ pred ordOK(t) = ordG(t, nil, zero(K))
+//@ pred ordOK(t) = ordG(t, nil, zero(K)) && valOK(t)
+// ordS: keys, key sets and slots only; valOK: every slot's value is the value the abstract map holds for the slot's key
+//@ pred ordS(t) = ordG(t, nil, zero(K))
+//@ pred valOK(t) = forall x *node[K, V], i int {x.keys[i]} {x.values[i]} :: t.nodes[x] && 0 <= i && i < x.n ==> t.val[x.keys[i]] == x.values[i]
 // ordG: the invariant with clause 4 (a key strictly between two separators lives in the child between them) suspended
 // for key ek at node ex (the state between taking the predecessor out of a leaf and putting it into the vacated slot)
 //@ pred ordG(t, ex, ek) =
 //@      (forall x *node[K, V], i int, j int {x.keys[i], x.keys[j]} :: t.nodes[x] && 0 <= i && i < j && j < x.n ==> t.compare(x.keys[i], x.keys[j]) < 0)
-//@   && (forall x *node[K, V], i int {x.keys[i]} :: t.nodes[x] && 0 <= i && i < x.n ==> x.sub[x.keys[i]] && t.val[x.keys[i]] == x.values[i] && t.locN[x.keys[i]] == x && t.locI[x.keys[i]] == i)
+//@   && (forall x *node[K, V], i int {x.keys[i]} :: t.nodes[x] && 0 <= i && i < x.n ==> x.sub[x.keys[i]] && t.locN[x.keys[i]] == x && t.locI[x.keys[i]] == i)
 //@   && (forall x *node[K, V], kk K {x.sub[kk]} :: t.nodes[x] && x.sub[kk] ==> t.root.sub[kk])
 //@   && (forall x *node[K, V], j int, kk K {x.children[j].sub[kk]} :: t.nodes[x] && x.height > 0 && 0 <= j && j <= x.n && x.children[j].sub[kk] ==>
 //@        x.sub[kk] && (j < x.n ==> t.compare(kk, x.keys[j]) < 0) && (j > 0 ==> t.compare(x.keys[j-1], kk) < 0))
@@ -239,7 +242,8 @@ package tree
 //@   ghost right.sub := lambda kk K :: old(right.sub)[kk] || kk == old(left.parent.keys[left.pidx]) || (old(left.sub)[kk] && t.compare(old(left.keys[left.n-1]), kk) < 0)
 //@   ghost t.locI := lambda kk K :: kk == old(left.keys[left.n-1]) ? old(left.pidx) : (kk == old(left.parent.keys[left.pidx]) ? 0 : (old(t.locN)[kk] == right ? old(t.locI)[kk] + 1 : old(t.locI)[kk]))
 //@   ghost t.locN := lambda kk K :: kk == old(left.keys[left.n-1]) ? old(left.parent) : (kk == old(left.parent.keys[left.pidx]) ? right : old(t.locN)[kk])
-//@   trustens C01: ordOK(t) && t.root.sub == old(t.root.sub) && t.val == old(t.val)
+//@   trustens C01: ordS(t) && t.root.sub == old(t.root.sub)
+//@   ensures C01: valOK(t) && t.val == old(t.val)
 //@   after call insertOne[2]: assert hint(old(left.n)) && hint(old(left.n) - 1) && hint(old(left.pidx)) && hint(old(left.pidx) + 1) && hint(0) && hint(1)
 
 //@ func btree.rotateLeft
@@ -253,7 +257,8 @@ package tree
 //@   ensures structOK(t, nil, nil) && left.n == old(left.n) + 1 && right.n == old(right.n) - 1 && t.nodes == old(t.nodes) && t.root == old(t.root)
 //@   ensures C02: deadOK(t)
 //@   requires C01: swo(t) && ordOK(t)
-//@   trustens C01: ordOK(t) && t.root.sub == old(t.root.sub) && t.val == old(t.val)
+//@   trustens C01: ordS(t) && t.root.sub == old(t.root.sub)
+//@   ensures C01: valOK(t) && t.val == old(t.val)
 
 //@ func btree.steal
 //@   props C01 C03
@@ -302,7 +307,8 @@ package tree
 //@   after call removeOne[2]: ghost t.dead := store(t.dead, right, true)
 //@   ghost t.dead := (t.root == left && old(left.parent) == old(t.root)) ? store(t.dead, old(t.root), true) : t.dead
 //@   requires C01: swo(t) && ordOK(t)
-//@   trustens C01: ordOK(t) && t.root.sub == old(t.root.sub) && t.val == old(t.val)
+//@   trustens C01: ordS(t) && t.root.sub == old(t.root.sub)
+//@   ensures C01: valOK(t) && t.val == old(t.val)
 
 //@ func btree.removeRightmost
 //@   props C01 C03
@@ -317,6 +323,7 @@ package tree
 //@   requires C01: swo(t) && ordOK(t)
 //@   trustens C01: old(x.sub)[result0] && result1 == t.val[result0] && t.val == old(t.val) && t.root.sub == old(t.root.sub) && x.parent == old(x.parent) && x.pidx == old(x.pidx)
 //@   trustens C01: (forall kk K {x.sub[kk]} {old(x.sub)[kk]} :: x.sub[kk] <==> (old(x.sub)[kk] && kk != result0)) && (forall kk K {x.sub[kk]} :: x.sub[kk] ==> t.compare(kk, result0) < 0)
+//@   ensures C01: valOK(t)
 //@   trustens C01: ordG(t, x.parent, result0) && (forall c *node[K, V] {c.sub} :: (t.nodes[c] && c.height > x.height) ==> c.sub == old(c.sub)) && (forall c *node[K, V], i int {c.keys[i]} :: c.height > 0 && 0 <= i && i < 15 ==> c.keys[i] == old(c.keys[i]))
 //@   trustens C01: t.locN == old(t.locN) && t.locI == old(t.locI) && t.locI[result0] == t.locN[result0].n && t.nodes[t.locN[result0]]
 
@@ -425,7 +432,12 @@ package tree
 //@   ensures structOK(t, nil, nil)
 //@   ensures C02: deadOK(t)
 //@   ensures C02: forall c *node[K, V] {t.nodes[c]} {old(t.nodes)[c]} :: old(t.nodes)[c] ==> t.nodes[c]
-//@   trustens C01: ordOK(t) && (forall kk K {t.root.sub[kk]} :: t.root.sub[kk] <==> (old(t.root.sub)[kk])) && t.val == store(old(t.val), k, v)
+//@   trustens C01: ordS(t) && (forall kk K {t.root.sub[kk]} :: t.root.sub[kk] <==> (old(t.root.sub)[kk]))
+//@   requires C01: valOK(t) && t.val[k] == v
+//@   ensures C01: valOK(t) && t.val == old(t.val)
+//@   loop 0: invariant C01: valOK(t) && t.val[k] == v && t.val == old(t.val)
+//@   loop 1: invariant C01: forall j int {right.keys[j]} {right.values[j]} :: 0 <= j && j < i ==> t.val[right.keys[j]] == right.values[j]
+//@   loop 3: invariant C01: (forall j int {left.keys[j]} {left.values[j]} :: i < j && j < 8 ==> t.val[left.keys[j]] == left.values[j]) && (forall j int {left.keys[j]} :: 0 <= j && j <= i ==> left.keys[j] == iter(0, x.keys[j])) && (forall j int {left.values[j]} :: 0 <= j && j <= i ==> left.values[j] == iter(0, x.values[j]))
 
 //@ func btree.Put
 //@   props C01 C03
@@ -455,6 +467,7 @@ package tree
 //@   before call insertIntoLeaf[0]: assert forall c *node[K, V], j int {path[c], hint(j)} :: path[c] && 0 <= j && j <= c.n && (j > 0 ==> t.compare(c.keys[j-1], k) < 0) && (j < c.n ==> t.compare(k, c.keys[j]) < 0) ==> j == nx[c]
 //@   before call insertIntoLeaf[0]: ghostmap c *node[K, V] . sub := path[c] ? store(c.sub, k, true) : c.sub
 //@   before call overfill[0]: ghostmap c *node[K, V] . sub := path[c] ? store(c.sub, k, true) : c.sub
+//@   before call overfill[0]: ghost t.val := store(t.val, k, v)
 //@   after call insertIntoLeaf[0]: ghost t.val := store(t.val, k, v)
 //@   after call insertIntoLeaf[0]: ghost t.locI := lambda kk K :: kk == k ? callghost_p : ((t.locN[kk] == curr && t.locI[kk] >= callghost_p) ? t.locI[kk] + 1 : t.locI[kk])
 //@   after call insertIntoLeaf[0]: ghost t.locN := store(t.locN, k, curr)
